@@ -5,22 +5,21 @@
 pub mod codec;
 #[path = "../../../harness/src/engine.rs"]
 pub mod engine;
+#[path = "../../../harness/src/jail.rs"]
+pub mod jail;
 #[path = "../../../harness/src/mockfs.rs"]
 pub mod mockfs;
+#[path = "../../../harness/src/ptdrv.rs"]
+pub mod ptdrv;
 #[path = "../../../harness/src/reqgen.rs"]
 pub mod reqgen;
 #[path = "../../../harness/src/transport.rs"]
 pub mod transport;
-pub mod props {
-    #[path = "../../../../harness/src/props/c01.rs"]
-    pub mod c01;
-    #[path = "../../../../harness/src/props/c02.rs"]
-    pub mod c02;
-    #[path = "../../../../harness/src/props/c03.rs"]
-    pub mod c03;
-    #[path = "../../../../harness/src/props/c04.rs"]
-    pub mod c04;
-}
+#[path = "../../../harness/src/vfsdrv.rs"]
+pub mod vfsdrv;
+// the whole property tree of the harness (its sub-modules resolve next to that mod.rs)
+#[path = "../../../harness/src/props/mod.rs"]
+pub mod props;
 
 use engine::Fail;
 
@@ -29,6 +28,10 @@ use engine::Fail;
 pub fn report(prop: &str, fails: Vec<Fail>) {
     static KNOWN: std::sync::OnceLock<engine::Known> = std::sync::OnceLock::new();
     let known = KNOWN.get_or_init(engine::Known::load);
+    // a campaign run for one property ignores what belongs to another one sharing the target
+    if std::env::var("FBV_FUZZ_PROP").is_ok_and(|p| p != prop) {
+        return;
+    }
     for f in fails {
         if known.is_known(prop, &f.sig).is_none() {
             // the harness' panic hook is quiet: say what failed before aborting the fuzzer
@@ -49,6 +52,255 @@ pub fn hook(prop: &'static str) {
             eprintln!("VIOLATION property={} signature=panic/{} message={}", prop, loc, msg);
         }));
     });
+}
+
+// ---------------------------------------------------------------- structure-aware JSON fuzzing
+//
+// The history-shaped properties take a serde `Case`. Their fuzz inputs are the JSON text of a
+// case (the same text a replay file holds). The seed corpus is drawn from the property's own
+// proptest strategy (`fbv corpus <target> <dir> <n>`, fresh draws per campaign), and a custom
+// mutator RECOMBINES what the strategy produced, guided by libFuzzer's coverage feedback:
+//   * every JSON node gets a type path (object keys / enum variant names; positions inside
+//     tuple-like arrays kept, positions inside vectors of composites dropped);
+//   * a scalar may only be replaced by a scalar that was observed at the same type path (in this
+//     input or in any input seen earlier by the mutator), a composite only by a composite of the
+//     same type path and the same enum variant; booleans flip;
+//   * vectors of composites lose, duplicate, swap, repeat or splice elements, within the length
+//     bounds observed for that type path.
+// So every field keeps values its generator can produce and the mutants stay inside the (product)
+// domain of the strategy: generator soundness carries over. Inputs that do not deserialize are
+// rejected. proptest's pass-through RNG was tried first and dropped: every `prop_oneof!` forks the
+// stream and halves it, it runs dry (zeros) after a few dozen choices and rand's uniform sampler
+// then spins forever.
+
+use serde_json::Value;
+use std::cell::RefCell;
+use std::collections::HashMap;
+
+struct Xs(u64);
+impl Xs {
+    fn next(&mut self) -> u64 {
+        self.0 ^= self.0 << 13;
+        self.0 ^= self.0 >> 7;
+        self.0 ^= self.0 << 17;
+        self.0
+    }
+    fn below(&mut self, n: usize) -> usize {
+        if n == 0 {
+            0
+        } else {
+            (self.next() % n as u64) as usize
+        }
+    }
+}
+
+#[derive(Default)]
+struct Pool {
+    /// type path -> values observed there (scalars and composites), bounded
+    vals: HashMap<String, Vec<Value>>,
+    /// type path of a vector of composites -> (min, max) observed length
+    lens: HashMap<String, (usize, usize)>,
+}
+
+thread_local! {
+    static POOL: RefCell<Pool> = RefCell::new(Pool::default());
+}
+
+fn is_scalar(v: &Value) -> bool {
+    !matches!(v, Value::Array(_) | Value::Object(_))
+}
+
+fn kind(v: &Value) -> u8 {
+    match v {
+        Value::Null => 0,
+        Value::Bool(_) => 1,
+        Value::Number(_) => 2,
+        Value::String(_) => 3,
+        Value::Array(_) => 4,
+        Value::Object(o) if o.len() == 1 => 5,
+        Value::Object(_) => 6,
+    }
+}
+
+/// same kind, and for single-key objects (externally tagged enums) the same variant
+fn compatible(a: &Value, b: &Value) -> bool {
+    if kind(a) != kind(b) {
+        return false;
+    }
+    match (a, b) {
+        (Value::Object(x), Value::Object(y)) => x.keys().eq(y.keys()),
+        // strings are payload bytes (hex) or identifiers; only hex payloads are interchangeable
+        (Value::String(x), Value::String(y)) => is_hex(x) && is_hex(y),
+        // tuples keep their arity; vectors of composites are interchangeable
+        (Value::Array(x), Value::Array(y)) => {
+            let (tx, ty) = (x.iter().any(is_scalar), y.iter().any(is_scalar));
+            tx == ty && (!tx || x.len() == y.len())
+        }
+        _ => true,
+    }
+}
+
+fn is_hex(s: &str) -> bool {
+    s.len() % 2 == 0 && s.bytes().all(|b| b.is_ascii_hexdigit())
+}
+
+/// visit every node with its type path
+fn walk(v: &mut Value, path: &str, out: &mut Vec<(String, *mut Value)>) {
+    out.push((path.to_string(), v as *mut Value));
+    match v {
+        Value::Array(a) => {
+            let tuple_like = a.iter().any(is_scalar);
+            for (i, x) in a.iter_mut().enumerate() {
+                let p = if tuple_like { format!("{}/{}", path, i) } else { format!("{}/*", path) };
+                walk(x, &p, out);
+            }
+        }
+        Value::Object(o) => {
+            for (k, x) in o.iter_mut() {
+                walk(x, &format!("{}/{}", path, k), out);
+            }
+        }
+        _ => {}
+    }
+}
+
+fn learn(nodes: &[(String, *mut Value)]) {
+    POOL.with(|p| {
+        let mut p = p.borrow_mut();
+        for (path, ptr) in nodes {
+            let v = unsafe { &**ptr };
+            if let Value::Array(a) = v {
+                if !a.iter().any(is_scalar) {
+                    let e = p.lens.entry(path.clone()).or_insert((a.len(), a.len()));
+                    e.0 = e.0.min(a.len());
+                    e.1 = e.1.max(a.len());
+                }
+            }
+            let bucket = p.vals.entry(path.clone()).or_default();
+            if bucket.len() < 48 {
+                if !bucket.contains(v) {
+                    bucket.push(v.clone());
+                }
+            }
+        }
+    });
+}
+
+/// one random domain-preserving edit of the JSON tree; false when nothing could be changed
+fn mutate_tree(root: &mut Value, r: &mut Xs) -> bool {
+    let mut nodes: Vec<(String, *mut Value)> = vec![];
+    walk(root, "", &mut nodes);
+    learn(&nodes);
+    for _ in 0..24 {
+        let (path, p) = &nodes[r.below(nodes.len())];
+        // SAFETY: the pointers come from one exclusive walk of `root`; exactly one node is edited
+        // and `nodes` is not used again afterwards
+        let v = unsafe { &mut **p };
+        if let Value::Bool(b) = v {
+            *b = !*b;
+            return true;
+        }
+        let structural = matches!(v, Value::Array(a) if !a.iter().any(is_scalar)) && r.below(3) != 0;
+        if structural {
+            let Value::Array(a) = v else { unreachable!() };
+            let (lo, hi) = POOL.with(|p| p.borrow().lens.get(path).copied()).unwrap_or((a.len(), a.len()));
+            let elem_path = format!("{}/*", path);
+            match r.below(6) {
+                0 if a.len() > lo => {
+                    let i = r.below(a.len());
+                    a.remove(i);
+                }
+                1 if !a.is_empty() && a.len() < hi => {
+                    let i = r.below(a.len());
+                    let x = a[i].clone();
+                    let j = r.below(a.len() + 1);
+                    a.insert(j, x);
+                }
+                2 if a.len() >= 2 => {
+                    let i = r.below(a.len());
+                    let j = r.below(a.len());
+                    if i == j {
+                        continue;
+                    }
+                    a.swap(i, j);
+                }
+                3 if a.len() > lo => {
+                    let i = lo.max(r.below(a.len()));
+                    a.truncate(i);
+                }
+                4 if a.len() < hi => {
+                    // splice in an element seen at this position type in another input
+                    let cand = POOL.with(|p| p.borrow().vals.get(&elem_path).and_then(|b| if b.is_empty() { None } else { Some(b[r.below(b.len())].clone()) }));
+                    let Some(x) = cand else { continue };
+                    let j = r.below(a.len() + 1);
+                    a.insert(j, x);
+                }
+                5 if a.len() >= 2 && a.len() < hi => {
+                    let i = r.below(a.len());
+                    let n = (1 + r.below(3)).min(a.len() - i).min(hi - a.len());
+                    let run: Vec<Value> = a[i..i + n].to_vec();
+                    a.extend(run);
+                }
+                _ => continue,
+            }
+            return true;
+        }
+        // replacement by a value of the same type path
+        let cand = POOL.with(|p| {
+            let p = p.borrow();
+            let b = p.vals.get(path)?;
+            let ok: Vec<&Value> = b.iter().filter(|c| compatible(c, v) && *c != &*v).collect();
+            if ok.is_empty() {
+                None
+            } else {
+                Some(ok[r.below(ok.len())].clone())
+            }
+        });
+        if let Some(c) = cand {
+            *v = c;
+            return true;
+        }
+    }
+    false
+}
+
+/// custom mutator body shared by the JSON targets
+pub fn json_mutate(data: &mut [u8], size: usize, max_size: usize, seed: u32) -> usize {
+    // an input that is not JSON (libFuzzer's empty start input) stays as it is: byte-level mutants
+    // would only be rejected
+    let Ok(mut v) = serde_json::from_slice::<Value>(&data[..size]) else { return size };
+    let mut r = Xs(((seed as u64) << 1 | 1).wrapping_mul(0x9E3779B97F4A7C15) | 1);
+    let rounds = 1 + r.below(3);
+    let mut changed = false;
+    for _ in 0..rounds {
+        changed |= mutate_tree(&mut v, &mut r);
+    }
+    if !changed {
+        return size;
+    }
+    let Ok(out) = serde_json::to_vec(&v) else { return size };
+    if out.len() > max_size || out.len() > data.len() {
+        return size;
+    }
+    data[..out.len()].copy_from_slice(&out);
+    out.len()
+}
+
+/// libFuzzer's own crossover would splice JSON text at byte offsets; teach the pool instead and
+/// return the first input with one element of the second spliced in by `mutate_tree`
+pub fn json_crossover(d1: &[u8], d2: &[u8], out: &mut [u8], seed: u32) -> usize {
+    if let Ok(mut v2) = serde_json::from_slice::<Value>(d2) {
+        let mut nodes = vec![];
+        walk(&mut v2, "", &mut nodes);
+        learn(&nodes);
+    }
+    let n = d1.len().min(out.len());
+    out[..n].copy_from_slice(&d1[..n]);
+    if n < d1.len() {
+        return 0;
+    }
+    let max = out.len();
+    json_mutate(out, n, max, seed)
 }
 
 pub struct Bytes<'a> {
